@@ -526,20 +526,20 @@ pub fn bodies(tier: &str) -> Vec<BodySpec> {
         b(CounterBody { name: "single-writer: 2 x (tx get insert commit)", occ: false, modes: vec![Tx, Tx] }, if q { 2 } else { 3 }, if q { 4.0 } else { 200.0 }),
         b(CounterBody { name: "single-writer: 2 x fetch_update helper", occ: false, modes: vec![FetchUpdate, FetchUpdate] }, if q { 2 } else { 3 }, if q { 3.0 } else { 200.0 }),
         b(CounterBody { name: "optimistic: 2 x fetch_update helper (retry loop)", occ: true, modes: vec![FetchUpdate, FetchUpdate] }, if q { 1 } else { 3 }, if q { 4.0 } else { 300.0 }),
-        b(CounterBody { name: "single-writer: tx || insert helper", occ: false, modes: vec![Tx, Insert100] }, if q { 2 } else { 3 }, if q { 2.5 } else { 100.0 }),
-        b(CounterBody { name: "single-writer: tx || remove helper", occ: false, modes: vec![Tx, Remove] }, if q { 2 } else { 3 }, if q { 2.5 } else { 100.0 }),
-        b(CounterBody { name: "single-writer: tx || take helper [reopened]", occ: false, modes: vec![Tx, Take] }, if q { 2 } else { 3 }, if q { 2.5 } else { 100.0 }),
-        b(CounterBody { name: "single-writer: tx || update_fetch helper", occ: false, modes: vec![Tx, UpdateFetch] }, if q { 2 } else { 3 }, if q { 2.5 } else { 100.0 }),
-        b(CounterBody { name: "optimistic: tx || insert helper [reopened]", occ: true, modes: vec![Tx, Insert100] }, if q { 2 } else { 3 }, if q { 2.5 } else { 100.0 }),
-        b(CounterBody { name: "optimistic: tx || remove helper", occ: true, modes: vec![Tx, Remove] }, if q { 2 } else { 3 }, if q { 2.5 } else { 100.0 }),
+        b(CounterBody { name: "single-writer: tx || insert helper", occ: false, modes: vec![Tx, Insert100] }, if q { 2 } else { 3 }, if q { 2.0 } else { 100.0 }),
+        b(CounterBody { name: "single-writer: tx || remove helper", occ: false, modes: vec![Tx, Remove] }, if q { 2 } else { 3 }, if q { 2.0 } else { 100.0 }),
+        b(CounterBody { name: "single-writer: tx || take helper [reopened]", occ: false, modes: vec![Tx, Take] }, if q { 2 } else { 3 }, if q { 2.0 } else { 100.0 }),
+        b(CounterBody { name: "single-writer: tx || update_fetch helper", occ: false, modes: vec![Tx, UpdateFetch] }, if q { 2 } else { 3 }, if q { 2.0 } else { 100.0 }),
+        b(CounterBody { name: "optimistic: tx || insert helper [reopened]", occ: true, modes: vec![Tx, Insert100] }, if q { 2 } else { 3 }, if q { 2.0 } else { 100.0 }),
+        b(CounterBody { name: "optimistic: tx || remove helper", occ: true, modes: vec![Tx, Remove] }, if q { 2 } else { 3 }, if q { 2.0 } else { 100.0 }),
     ];
     // "until commit nothing is visible outside, commit applies all at once" on a recovered database
     {
         use crate::props::c06::{Act, Finals, Kind, VisBody};
         let init = vec![("x", "a", "0"), ("y", "b", "0")];
         let reader = vec![Act::SnapRead(vec![("x", "a"), ("y", "b")])];
-        v.push(BodySpec { body: Arc::new(VisBody { name: "sw-tx(x.a,y.b) || read_tx [reopened]", kind: Kind::Sw, workers: 0, keyspaces: vec!["x", "y"], initial: init.clone(), prerotate: vec![], threads: vec![vec![Act::Tx(vec![("x", "a", "1"), ("y", "b", "1")])], reader.clone()], finals: Finals::None }), bound: 2, secs: if q { 2.5 } else { 60.0 } });
-        v.push(BodySpec { body: Arc::new(VisBody { name: "occ-tx(x.a,y.b) || read_tx [reopened]", kind: Kind::Occ, workers: 0, keyspaces: vec!["x", "y"], initial: init, prerotate: vec![], threads: vec![vec![Act::Tx(vec![("x", "a", "1"), ("y", "b", "1")])], reader], finals: Finals::None }), bound: 2, secs: if q { 2.5 } else { 60.0 } });
+        v.push(BodySpec { body: Arc::new(VisBody { name: "sw-tx(x.a,y.b) || read_tx [reopened]", kind: Kind::Sw, workers: 0, keyspaces: vec!["x", "y"], initial: init.clone(), prerotate: vec![], threads: vec![vec![Act::Tx(vec![("x", "a", "1"), ("y", "b", "1")])], reader.clone()], finals: Finals::None }), bound: 2, secs: if q { 2.0 } else { 60.0 } });
+        v.push(BodySpec { body: Arc::new(VisBody { name: "occ-tx(x.a,y.b) || read_tx [reopened]", kind: Kind::Occ, workers: 0, keyspaces: vec!["x", "y"], initial: init, prerotate: vec![], threads: vec![vec![Act::Tx(vec![("x", "a", "1"), ("y", "b", "1")])], reader], finals: Finals::None }), bound: 2, secs: if q { 2.0 } else { 60.0 } });
     }
     if !q {
         v.push(b(CounterBody { name: "single-writer: 3 x (tx get insert commit)", occ: false, modes: vec![Tx, Tx, Tx] }, 2, 300.0));
@@ -557,9 +557,9 @@ pub fn run(tier: &str) -> i32 {
     let mut all = std::collections::HashSet::new();
     let mut exhaustive = true;
     for (name, kind, full, depth, secs) in [
-        ("single-writer", DbKind::SingleWriter, false, if q { 4 } else { 6 }, if q { 13.0 } else { 600.0 }),
-        ("optimistic", DbKind::Optimistic, false, if q { 4 } else { 6 }, if q { 13.0 } else { 600.0 }),
-        ("single-writer/full-alphabet", DbKind::SingleWriter, true, if q { 3 } else { 5 }, if q { 5.0 } else { 400.0 }),
+        ("single-writer", DbKind::SingleWriter, false, if q { 4 } else { 6 }, if q { 9.0 } else { 600.0 }),
+        ("optimistic", DbKind::Optimistic, false, if q { 4 } else { 6 }, if q { 9.0 } else { 600.0 }),
+        ("single-writer/full-alphabet", DbKind::SingleWriter, true, if q { 3 } else { 5 }, if q { 4.0 } else { 400.0 }),
     ] {
         let prop = TxLocalProp { kind, alphabet: alphabet(full) };
         let t = Instant::now();
